@@ -224,11 +224,6 @@ theorem sgroup_runFrom (agg : GAgg α) (kf inf : Row → Row) (hk : RowCongr kf)
           (gUpdate agg groups (kf r.vals) r.retr (inf r.vals), [], none) := rfl
       simp only [Op.runFrom, hstep, hrun, wmMsgs, wms, List.nil_append]
 
-theorem recs_map_data (l : List Rec) : recs (l.map .data) = l := by
-  induction l with
-  | nil => rfl
-  | cons r rs ih => simp [recs, ih]
-
 /-- what the entries of a state satisfying the invariant trigger, and the consolidated result -/
 theorem ginv_result (agg : GAgg α) (spec : List Row → Row) (hagg : GAggOK agg spec) (kf inf : Row → Row)
     (hk : RowCongr kf) (hi : RowCongr inf) (log : List Rec) (groups : List (Row × GItem α))
